@@ -302,7 +302,8 @@ def run_case(case, seed=0, replay_dir=None, known=None):
                     raise
                 holo = False  # the code conjugates / takes real parts of walker-dependent values: full complex variables
                 res["traced"]["holomorphic_fallback"] = str(ex)
-        pre = list(case.pre(inp)) + qdom.inverted_nonzero()
+        # atoms the code divided by are assumed non-zero, unless the case states that its obligations do not involve any quotient
+        pre = list(case.pre(inp)) + (qdom.inverted_nonzero() if getattr(case, "assume_inverted_nonzero", True) else [])
         for label, lhs, rhs in rels:
             ob = {"label": label}
             if len(res["violations"]) >= getattr(case, "max_violations", 4):
